@@ -15,6 +15,7 @@ import Mathlib.Tactic.FieldSimp
 import Mathlib.Algebra.Order.Field.Basic
 import Mathlib.Algebra.Order.Floor.Ring
 import Mathlib.Data.Rat.Floor
+import Mathlib.Analysis.SpecialFunctions.Trigonometric.Deriv
 namespace Vegeta.Props.C01
 open Vegeta.Go Vegeta.Model.Pacer
 
@@ -253,6 +254,58 @@ theorem const_positive_wait_on_schedule (freq per elapsed : Int) (hits : Nat) (d
     Int.mul_le_mul_of_nonneg_right (by omega) (Int.le_of_lt hf)
   have h2 : (elapsed + 1) * freq = freq * elapsed + freq := by ring
   omega
+
+/-- The deadline is the CEILING of `(hits+1)·Per/Freq`: it is the least whole nanosecond at which
+the schedule has reached the next count. -/
+theorem const_due_iff (freq per : Int) (hits : Nat) (hf : 0 < freq) (τ : Int) :
+    constDue freq per hits ≤ τ ↔ ((hits : Int) + 1) * per ≤ freq * τ := by
+  have hc := @aux_ceil (((hits : Int) + 1) * per) freq hf
+  unfold constDue
+  constructor
+  · intro h
+    have h1 : (((hits : Int) + 1) * per + freq - 1) / freq * freq ≤ τ * freq :=
+      Int.mul_le_mul_of_nonneg_right h (Int.le_of_lt hf)
+    have h2 : τ * freq = freq * τ := by ring
+    omega
+  · intro h
+    have h1 : ((hits : Int) + 1) * per + freq - 1 < (τ + 1) * freq := by
+      have : (τ + 1) * freq = freq * τ + freq := by ring
+      omega
+    have := Int.ediv_lt_of_lt_mul hf h1
+    omega
+
+/-- Every wait of the constant pacer — positive or the catch-up 0 — releases the next hit exactly
+at the ceiling deadline: at `max(elapsed,0) + d` the schedule has reached `hits+1`
+(`(hits+1)·Per ≤ Freq·(elapsed+d)`, so the count never runs ahead of the schedule, not even by a
+fraction of a hit and also above one hit per nanosecond), and at no earlier instant of the wait
+has it (`d` is the least such wait).  A deadline rounded to the NEAREST nanosecond would break the
+first half. -/
+theorem const_deadline_is_ceiling (freq per elapsed : Int) (hits : Nat) (d : Int)
+    (hr : InRange freq per hits) (hf : 0 < freq) (hp : 0 < per)
+    (h : constPace freq per elapsed hits = .wait d) :
+    ((hits : Int) + 1) * per ≤ freq * (max elapsed 0 + d) ∧
+    (∀ τ : Int, τ < max elapsed 0 + d → 0 < d → freq * τ < ((hits : Int) + 1) * per) := by
+  obtain ⟨hfr, hpr, hh⟩ := hr
+  unfold inS64 at hfr hpr
+  rw [aux_constPace_pos hf hp hfr.2 hpr.2 hh] at h
+  have hdue0 : 0 ≤ constDue freq per hits := by
+    unfold constDue
+    have : 0 ≤ ((hits : Int) + 1) * per := Int.mul_nonneg (by omega) (Int.le_of_lt hp)
+    exact Int.ediv_nonneg (by omega) (Int.le_of_lt hf)
+  split at h
+  · exact absurd h PaceOut.noConfusion
+  · split at h
+    · rename_i hle
+      injection h with h
+      refine ⟨(const_due_iff freq per hits hf _).1 (by omega), fun τ _ hd => by omega⟩
+    · rename_i hlt
+      injection h with h
+      refine ⟨(const_due_iff freq per hits hf _).1 (by omega), fun τ hτ _ => ?_⟩
+      have := (const_due_iff freq per hits hf τ).not.1 (by omega)
+      omega
+
+example : constPace 3 10 0 0 = .wait 4 := by decide
+example : ¬ (((0 : Nat) : Int) + 1) * 10 ≤ 3 * 3 := by decide   -- the nearest nanosecond (3) is too early
 
 /-- Contrapositive, as the statement puts it: "an attacker that fell behind is told to catch up
 without waiting". -/
@@ -1026,11 +1079,12 @@ theorem aux_seconds_exact (t : Int) :
 /-! ### Conversions and the K-valued closed-loop lemma -/
 
 /-- K-valued form of `closedLoop_upper_of_contract` with additive slack `c` and a time horizon
-`T ≤ MaxInt64`: the contract may use that virtual time is non-negative and has not passed `T`; the
+`T ≤ MaxInt64`: the contract may use that virtual time is non-negative and has not passed `T`, the schedule need
+be monotone up to `T` only; the
 bound is obtained for every state up to `T` (every state has `t ≤ MaxInt64`). -/
 theorem closedLoop_upper_of_contract_field (p : Int → Nat → PaceOut) (S : Int → K) (c : K) (T : Int)
     (_hT : T ≤ maxInt64)
-    (hmono : ∀ a b : Int, 0 ≤ a → a ≤ b → S a ≤ S b)
+    (hmono : ∀ a b : Int, 0 ≤ a → a ≤ b → b ≤ T → S a ≤ S b)
     (hcontract : ∀ (t : Int) (n : Nat) (d : Int), 0 ≤ t → t + max d 0 ≤ T →
       (n : K) ≤ S t + c → p t n = .wait d → (n : K) + 1 ≤ S (t + max d 0) + c)
     (stalls : List Nat) (h0 : 0 ≤ S 0 + c) :
@@ -1045,7 +1099,7 @@ theorem closedLoop_upper_of_contract_field (p : Int → Nat → PaceOut) (S : In
     refine ⟨by omega, hle, ?_⟩
     intro hTle
     have h1 := hcontract t n d ht (by omega) (hinv (by omega)) hw
-    have h2 := hmono (t + max d 0) (t + max d 0 + (s : Int)) (by omega) (by omega)
+    have h2 := hmono (t + max d 0) (t + max d 0 + (s : Int)) (by omega) (by omega) hTle
     push_cast
     linarith
 
@@ -1208,7 +1262,7 @@ theorem linear_upper_nonneg_slope (p : LinearP K) (hf : 0 < p.freq) (hp : 0 < p.
   refine (closedLoop_upper_of_contract_field (linearPace (exactOps sin cos pi) p)
     (fun t => linearHits (exactOps sin cos pi) p t) 1 T hT ?_ ?_ stalls ?_ x hx).2 hxT
   · -- the schedule is monotone on t ≥ 0
-    intro t1 t2 h1 h2
+    intro t1 t2 h1 h2 _
     rw [hH t1 h1, hH t2 (by omega)]
     have hx1 : (0 : K) ≤ (t1 : K) / 1000000000 := by
       have : (0 : K) ≤ (t1 : K) := by exact_mod_cast h1
@@ -1319,6 +1373,241 @@ theorem linear_upper_nonneg_slope (p : LinearP K) (hf : 0 < p.freq) (hp : 0 < p.
       rw [hexp]
       linarith only [hur, hquad]
   · rw [hH 0 (le_refl _)]; simp
+
+/-! ### Linear pacer with a NEGATIVE slope, up to (almost) the zero of the rate: the extent of F05 -/
+
+/-- The algebra of one first-order step when the rate falls (`a ≤ 0`): the wait `u` (seconds,
+truncated: `delta − r/1e9 < u·r ≤ delta`) advances the schedule by `u·r + a·u²/2`, which is at
+least `delta − 1` — the new count is at most one hit ahead — as long as the rate at the horizon
+leaves room: `−2a ≤ rT²·(1 − b/1e9)`. -/
+theorem aux_neg_slope_step (a b r rT u delta : K) (ha : a ≤ 0) (hrT : 0 < rT) (hrTr : rT ≤ r)
+    (hrb : r ≤ b) (hb9 : b ≤ 1000000000) (hd0 : 0 < delta) (hd2 : delta ≤ 2) (hu0 : 0 ≤ u)
+    (hu1 : u * r ≤ delta) (hu2 : delta - r / 1000000000 < u * r)
+    (hroom : -(2 * a) ≤ rT ^ 2 * (1 - b / 1000000000)) :
+    delta - 1 ≤ u * r + a * u ^ 2 / 2 := by
+  have hr : 0 < r := lt_of_lt_of_le hrT hrTr
+  have h1 : u ≤ delta / r := by rw [le_div_iff₀ hr]; exact hu1
+  have h2 : u ^ 2 ≤ (delta / r) ^ 2 := pow_le_pow_left₀ hu0 h1 2
+  have h3 : (delta / r) ^ 2 ≤ 4 / r ^ 2 := by
+    rw [div_pow]
+    apply div_le_div_of_nonneg_right _ (by positivity)
+    nlinarith
+  have h4 : a * (4 / r ^ 2) ≤ a * u ^ 2 := mul_le_mul_of_nonpos_left (le_trans h2 h3) ha
+  have hc : 0 ≤ 1 - b / 1000000000 := by
+    have : b / 1000000000 ≤ 1 := by rw [div_le_one (by norm_num)]; exact hb9
+    linarith
+  have h5 : rT ^ 2 ≤ r ^ 2 := pow_le_pow_left₀ (le_of_lt hrT) hrTr 2
+  have h6 : -(2 * a) ≤ r ^ 2 * (1 - b / 1000000000) :=
+    le_trans hroom (mul_le_mul_of_nonneg_right h5 hc)
+  have h7 : -(1 - b / 1000000000) ≤ a * (4 / r ^ 2) / 2 := by
+    have hr2 : 0 < r ^ 2 := by positivity
+    have : a * (4 / r ^ 2) / 2 = 2 * a / r ^ 2 := by ring
+    rw [this, le_div_iff₀ hr2]
+    linarith
+  have h8 : r / 1000000000 ≤ b / 1000000000 := by
+    apply div_le_div_of_nonneg_right hrb; norm_num
+  linarith
+
+/-- What exactly holds for a falling rate.  Along EVERY closed loop of the linear pacer over exact
+arithmetic with slope `a ≤ 0`, every stall history, up to any horizon `T` at which the declared rate
+is still positive and leaves room, `−2a ≤ rate(T)²·(1 − rate(0)/1e9)` — in hits: at least
+`1/(1 − rate(0)/1e9)` (about one) hit of the schedule `Hmax = b²/(2|a|)` is still to come at `T`, since
+`rate(T)² = 2|a|·(Hmax − H(T))` —: `n_k ≤ H(t_k) + 1`.  The first-order wait undershoots by exactly
+`delta²/(4·(Hmax − H(t)))` hits, so the bound can fail only within the LAST hit before the schedule
+tops out (and after it): that — and nothing else — is known finding F05
+(`linear_negative_slope_counterexample`: 0.25 hits to go, 1.56 ahead). -/
+theorem linear_upper_negative_slope (p : LinearP K) (hf : 0 < p.freq) (hp : 0 < p.per)
+    (ha : p.slope ≤ 0) (T : Int) (hT : T ≤ maxInt64)
+    (hpos : 0 < linearRate (exactOps sin cos pi) p T)
+    (hb9 : linearRate (exactOps sin cos pi) p 0 ≤ 1000000000)
+    (hroom : -(2 * p.slope) ≤ linearRate (exactOps sin cos pi) p T ^ 2
+      * (1 - linearRate (exactOps sin cos pi) p 0 / 1000000000))
+    (stalls : List Nat) :
+    ∀ x ∈ closedLoop (linearPace (exactOps sin cos pi) p) stalls 0 0, x.1 ≤ T →
+      (x.2 : K) ≤ linearHits (exactOps sin cos pi) p x.1 + 1 := by
+  have hfK : (0 : K) < (p.freq : K) := by exact_mod_cast hf
+  have hpK : (0 : K) < (p.per : K) := by exact_mod_cast hp
+  obtain ⟨a, hadef⟩ : ∃ a, a = p.slope := ⟨_, rfl⟩
+  obtain ⟨b, hbdef⟩ : ∃ b, b = (p.freq : K) / (p.per : K) * 1000000000 := ⟨_, rfl⟩
+  obtain ⟨M, hMdef⟩ : ∃ M, M = ((maxInt64 : Int) : K) := ⟨_, rfl⟩
+  have hb : 0 < b := by rw [hbdef]; positivity
+  have ha' : a ≤ 0 := by rw [hadef]; exact ha
+  have hM63 : M + 1 = ((two63 : Nat) : K) := by rw [hMdef]; unfold maxInt64 two63; norm_num
+  have hR : ∀ t : Int, linearRate (exactOps sin cos pi) p t = a * ((t : K) / 1000000000) + b := by
+    intro t; rw [(aux_linear_closed_forms sin cos pi p t).1, hadef, hbdef]
+  have hH : ∀ t : Int, 0 ≤ t → linearHits (exactOps sin cos pi) p t
+      = a * ((t : K) / 1000000000) ^ 2 / 2 + b * ((t : K) / 1000000000) := by
+    intro t ht; rw [(aux_linear_closed_forms sin cos pi p t).2 ht, hadef, hbdef]
+  rw [hR] at hpos hb9
+  rw [hR, hR, ← hadef] at hroom
+  have hb9' : b ≤ 1000000000 := by simpa using hb9
+  have hroom' : -(2 * a) ≤ (a * ((T : K) / 1000000000) + b) ^ 2 * (1 - b / 1000000000) := by
+    simpa using hroom
+  obtain ⟨rT, hrTdef⟩ : ∃ rT, rT = a * ((T : K) / 1000000000) + b := ⟨_, rfl⟩
+  rw [← hrTdef] at hpos hroom'
+  -- facts at a time 0 ≤ t ≤ T
+  have hfacts : ∀ t : Int, 0 ≤ t → t ≤ T →
+      0 ≤ (t : K) / 1000000000 ∧ rT ≤ a * ((t : K) / 1000000000) + b ∧
+      a * ((t : K) / 1000000000) + b ≤ b ∧
+      0 ≤ a * ((t : K) / 1000000000) ^ 2 / 2 + b * ((t : K) / 1000000000) ∧
+      a * ((t : K) / 1000000000) ^ 2 / 2 + b * ((t : K) / 1000000000) ≤ (t : K) := by
+    intro t ht0 ht1
+    have hx0 : (0 : K) ≤ (t : K) / 1000000000 := by
+      have : (0 : K) ≤ (t : K) := by exact_mod_cast ht0
+      positivity
+    have htM : (t : K) ≤ (T : K) := by exact_mod_cast ht1
+    have hxM : (t : K) / 1000000000 ≤ (T : K) / 1000000000 := by
+      apply div_le_div_of_nonneg_right htM; norm_num
+    have hr1 : rT ≤ a * ((t : K) / 1000000000) + b := by
+      rw [hrTdef]; have := mul_le_mul_of_nonpos_left hxM ha'; linarith
+    have hr2 : a * ((t : K) / 1000000000) + b ≤ b := by
+      have := mul_nonpos_of_nonpos_of_nonneg ha' hx0; linarith
+    have hrpos : 0 < a * ((t : K) / 1000000000) + b := lt_of_lt_of_le hpos hr1
+    have hax : a * ((t : K) / 1000000000) ≤ 0 := mul_nonpos_of_nonpos_of_nonneg ha' hx0
+    refine ⟨hx0, hr1, hr2, ?_, ?_⟩
+    · have : a * ((t : K) / 1000000000) ^ 2 / 2 + b * ((t : K) / 1000000000)
+          = (t : K) / 1000000000 * (a * ((t : K) / 1000000000) / 2 + b) := by ring
+      rw [this]
+      apply mul_nonneg hx0
+      linarith
+    · have h1 : a * ((t : K) / 1000000000) ^ 2 / 2 + b * ((t : K) / 1000000000)
+          ≤ (t : K) / 1000000000 * b := by
+        have : a * ((t : K) / 1000000000) ^ 2 / 2 = (t : K) / 1000000000 * (a * ((t : K) / 1000000000)) / 2 := by
+          ring
+        have h0 := mul_nonpos_of_nonneg_of_nonpos hx0 hax
+        linarith
+      have h2 : (t : K) / 1000000000 * b ≤ (t : K) / 1000000000 * 1000000000 :=
+        mul_le_mul_of_nonneg_left hb9' hx0
+      have h3 : ((t : K) / 1000000000) * 1000000000 = (t : K) := by field_simp
+      linarith
+  intro x hx hxT
+  refine (closedLoop_upper_of_contract_field (linearPace (exactOps sin cos pi) p)
+    (fun t => linearHits (exactOps sin cos pi) p t) 1 T hT ?_ ?_ stalls ?_ x hx).2 hxT
+  · -- the schedule is monotone on [0, T]: the rate is positive there
+    intro t1 t2 h1 h2 h3
+    rw [hH t1 h1, hH t2 (by omega)]
+    obtain ⟨hx1, _, _, _, _⟩ := hfacts t1 h1 (by omega)
+    obtain ⟨hx2, hr2, _, _, _⟩ := hfacts t2 (by omega) h3
+    have hx12 : (t1 : K) / 1000000000 ≤ (t2 : K) / 1000000000 := by
+      apply div_le_div_of_nonneg_right _ (by norm_num)
+      exact_mod_cast h2
+    have hmid : 0 ≤ a * (((t1 : K) / 1000000000 + (t2 : K) / 1000000000) / 2) + b := by
+      have : a * ((t2 : K) / 1000000000) ≤ a * (((t1 : K) / 1000000000 + (t2 : K) / 1000000000) / 2) :=
+        mul_le_mul_of_nonpos_left (by linarith) ha'
+      linarith
+    have hdiff : a * ((t2 : K) / 1000000000) ^ 2 / 2 + b * ((t2 : K) / 1000000000)
+        - (a * ((t1 : K) / 1000000000) ^ 2 / 2 + b * ((t1 : K) / 1000000000))
+        = ((t2 : K) / 1000000000 - (t1 : K) / 1000000000)
+          * (a * (((t1 : K) / 1000000000 + (t2 : K) / 1000000000) / 2) + b) := by ring
+    have := mul_nonneg (sub_nonneg.2 hx12) hmid
+    linarith
+  · -- the pointwise contract
+    intro t n d ht hle hinv hw
+    have hm : (0 : Int) ≤ max d 0 := le_max_right _ _
+    obtain ⟨hx0, hrT1, hrb, hH0, hHt⟩ := hfacts t ht (by omega)
+    rw [hH t ht] at hinv
+    have htM : (t : K) ≤ M := by rw [hMdef]; exact_mod_cast (by omega : t ≤ maxInt64)
+    rcases aux_linearPace_wait (exactOps sin cos pi) p t n d hf hp hw with ⟨hbeh, hd⟩ | ⟨hnb, _, hnov, hd⟩
+    · rw [hd]
+      simp only [max_self, add_zero]
+      rw [hH t ht]
+      rcases hbeh with h0 | hlt
+      · rw [h0]; simp only [Nat.cast_zero]; linarith
+      · have hcast : ((toU64K (linearHits (exactOps sin cos pi) p t) : Int) : K)
+            ≤ linearHits (exactOps sin cos pi) p t :=
+          aux_toU64K_le _ (by rw [hH t ht]; exact hH0)
+        have hlt' : (n : Int) + 1 ≤ toU64K (linearHits (exactOps sin cos pi) p t) := hlt
+        have : ((n : Int) : K) + 1 ≤ ((toU64K (linearHits (exactOps sin cos pi) p t) : Int) : K) := by
+          exact_mod_cast hlt'
+        rw [hH t ht] at hcast this
+        push_cast at this
+        linarith
+    · have hnb' : ¬ (n : Int) < toU64K (linearHits (exactOps sin cos pi) p t) := fun h => hnb (Or.inr h)
+      rw [hH t ht] at hnb'
+      set Hq := a * ((t : K) / 1000000000) ^ 2 / 2 + b * ((t : K) / 1000000000) with hHq
+      set r := a * ((t : K) / 1000000000) + b with hr
+      have hHlt63 : Hq < ((two63 : Nat) : K) := by linarith
+      rw [aux_toU64K_floor Hq hH0 hHlt63] at hnb'
+      have hfl : Hq < (n : K) + 1 := by
+        have h1 := Int.lt_floor_add_one Hq
+        have h2 : ((⌊Hq⌋ : Int) : K) ≤ ((n : Int) : K) := by exact_mod_cast (not_lt.1 hnb')
+        push_cast at h2
+        linarith
+      have hnle : (n : Int) ≤ maxInt64 + 1 := by
+        have : ((n : Int) : K) ≤ ((maxInt64 + 1 : Int) : K) := by
+          push_cast; rw [← hMdef]; linarith
+        exact_mod_cast this
+      have hwrap : wrapU64 ((n : Int) + 1) = (n : Int) + 1 :=
+        wrapU64_id (by unfold inU64 two64; unfold maxInt64 at hnle; omega)
+      have hrpos : 0 < r := lt_of_lt_of_le hpos hrT1
+      have hWF : linearWaitF (exactOps sin cos pi) p t n = 1000000000 / r * ((n : K) + 1 - Hq) := by
+        unfold linearWaitF
+        rw [hwrap, hR t, hH t ht]
+        simp only [exactOps, id]
+        push_cast
+        rfl
+      rw [hWF] at hd hnov
+      set W := 1000000000 / r * ((n : K) + 1 - Hq) with hW
+      have hdelta0 : 0 < (n : K) + 1 - Hq := by linarith
+      have hdelta2 : (n : K) + 1 - Hq ≤ 2 := by linarith
+      have hW0 : 0 < W := by rw [hW]; positivity
+      have hWM : W < M := by
+        have h1 : ¬ (((maxInt64 : Int) : K) ≤ W) := by
+          intro hcon
+          have : (exactOps sin cos pi).le ((exactOps sin cos pi).ofInt64 maxInt64) W = true := by
+            simp [exactOps, hcon]
+          rw [this] at hnov; exact absurd hnov (by decide)
+        rw [hMdef]; exact not_le.1 h1
+      have hdfl : d = ⌊W⌋ := by
+        rw [hd]
+        apply aux_toI64K_floor W (le_of_lt hW0)
+        push_cast; rw [← hMdef]; linarith
+      have hd0 : 0 ≤ d := by rw [hdfl]; exact Int.floor_nonneg.2 (le_of_lt hW0)
+      have hmax : max d 0 = d := max_eq_left hd0
+      rw [hmax] at hle ⊢
+      rw [hH (t + d) (by omega)]
+      have hdK : W - 1 < (d : K) := by
+        have := Int.lt_floor_add_one W
+        rw [hdfl]; linarith
+      have hdKle : (d : K) ≤ W := by rw [hdfl]; exact Int.floor_le W
+      have hdK0 : (0 : K) ≤ (d : K) := by exact_mod_cast hd0
+      have hsplit : ((t + d : Int) : K) / 1000000000 = (t : K) / 1000000000 + (d : K) / 1000000000 := by
+        push_cast; ring
+      rw [hsplit]
+      have hu0 : (0 : K) ≤ (d : K) / 1000000000 := by positivity
+      have hWr : W * r = 1000000000 * ((n : K) + 1 - Hq) := by rw [hW]; field_simp
+      have hu1 : (d : K) / 1000000000 * r ≤ (n : K) + 1 - Hq := by
+        have h1 : (d : K) * r ≤ W * r := mul_le_mul_of_nonneg_right hdKle (le_of_lt hrpos)
+        have h3 : (d : K) / 1000000000 * r = (d : K) * r / 1000000000 := by ring
+        rw [h3, div_le_iff₀ (by norm_num)]
+        linarith only [h1, hWr]
+      have hu2 : (n : K) + 1 - Hq - r / 1000000000 < (d : K) / 1000000000 * r := by
+        have h1 : (W - 1) * r < (d : K) * r := mul_lt_mul_of_pos_right hdK hrpos
+        have h3 : (d : K) / 1000000000 * r = (d : K) * r / 1000000000 := by ring
+        rw [h3, lt_div_iff₀ (by norm_num)]
+        have h4 : ((n : K) + 1 - Hq - r / 1000000000) * 1000000000
+            = 1000000000 * ((n : K) + 1 - Hq) - r := by field_simp
+        rw [h4]
+        have h5 : (W - 1) * r = W * r - r := by ring
+        linarith only [h1, h5, hWr]
+      have hstep := aux_neg_slope_step a b r rT ((d : K) / 1000000000) ((n : K) + 1 - Hq)
+        ha' hpos hrT1 hrb hb9' hdelta0 hdelta2 hu0 hu1 hu2 hroom'
+      have hexp : a * ((t : K) / 1000000000 + (d : K) / 1000000000) ^ 2 / 2
+          + b * ((t : K) / 1000000000 + (d : K) / 1000000000)
+          = Hq + ((d : K) / 1000000000 * r + a * ((d : K) / 1000000000) ^ 2 / 2) := by
+        rw [hHq, hr]; ring
+      rw [hexp]
+      linarith only [hstep]
+  · rw [hH 0 (le_refl _)]; simp
+
+/-- Non-vacuity (ℚ): 100 hits/s falling by 50/s² (schedule tops out at 100 hits after 2s): the
+hypotheses hold up to T = 1.7s, where 97.75 hits are scheduled and 2.25 are still to come. -/
+example :
+    let o : FloatOps ℚ := exactOps (fun _ => 0) (fun _ => 0) 0
+    let p : LinearP ℚ := { freq := 100, per := 1000000000, slope := -50 }
+    0 < linearRate o p 1700000000 ∧ linearRate o p 0 ≤ 1000000000 ∧
+    -(2 * p.slope) ≤ linearRate o p 1700000000 ^ 2 * (1 - linearRate o p 0 / 1000000000) := by
+  decide +kernel
 
 /-! ### No wrap-around in the linear pacer (commit 4a0988c) -/
 
@@ -1513,7 +1802,7 @@ theorem sine_upper_exact (p : SineP K) (H : Int → K)
   have hconvI : ∀ x : K, inS64 (o.toInt64 x) := by intro x; rw [ho]; exact aux_toI64K_range x
   intro x hx
   have hres := closedLoop_upper_of_contract_field (sinePace o p) H (1 + 1 / 1000) maxInt64 (le_refl _)
-    (fun a b _ hab => hmono a b hab) ?_ stalls ?_ x hx
+    (fun a b _ hab _ => hmono a b hab) ?_ stalls ?_ x hx
   · exact hres.2 hres.1
   · intro t n d ht hle hinv hw
     have hm : (0 : Int) ≤ max d 0 := le_max_right _ _
@@ -1680,6 +1969,99 @@ theorem sine_upper_exact (p : SineP K) (H : Int → K)
           (by unfold maxInt64 at *; omega))
   · rw [hH00]; norm_num
 
+/-! ### Sine pacer: closed forms for arbitrary pairs of units, phase-independent bound, accepted guesses -/
+
+/-- What the code computes over exact arithmetic, for a valid configuration and `t > 0`: the
+schedule `H(t) = M·t + (A·P/2π)(cos O − cos(O + 2πt/P))` and the rate `(M + A·sin(O + 2πt/P))·1e9`
+with `M = Mean.Freq/Mean.Per` and `A = Amp.Freq/Amp.Per` — each rate in its OWN unit, the two units
+need not agree. -/
+theorem sine_closed_forms (p : SineP K) (t : Int) (ht : 0 < t)
+    (hv : sineInvalid (exactOps sin cos pi) p = false) :
+    sineHits (exactOps sin cos pi) p t
+      = (p.meanFreq : K) / (p.meanPer : K) * (t : K)
+        + (p.ampFreq : K) / (p.ampPer : K) * (p.period : K) / (2 * pi)
+          * (cos p.startAt - cos (p.startAt + (t : K) * 2 * pi / (p.period : K))) ∧
+    sineRate (exactOps sin cos pi) p t
+      = ((p.meanFreq : K) / (p.meanPer : K)
+        + (p.ampFreq : K) / (p.ampPer : K) * sin (p.startAt + (t : K) * 2 * pi / (p.period : K)))
+        * 1000000000 := by
+  constructor
+  · unfold sineHits
+    rw [if_neg (by rw [hv]; simp; omega)]
+    rfl
+  · rfl
+
+/-- The best phase-independent bound on the schedule: for ANY start phase, period and pair of
+units the sine term moves the count at most `2·|ampHits|` away from the mean line (only
+`|cos| ≤ 1` is used) … -/
+theorem sine_hits_phase_bound (p : SineP K) (t : Int) (ht : 0 < t)
+    (hv : sineInvalid (exactOps sin cos pi) p = false) (hcos : ∀ x : K, |cos x| ≤ 1) :
+    |sineHits (exactOps sin cos pi) p t - (p.meanFreq : K) / (p.meanPer : K) * (t : K)|
+      ≤ 2 * |sineAmpHits (exactOps sin cos pi) p| := by
+  rw [(sine_closed_forms sin cos pi p t ht hv).1]
+  have hA : sineAmpHits (exactOps sin cos pi) p
+      = (p.ampFreq : K) / (p.ampPer : K) * (p.period : K) / (2 * pi) := rfl
+  rw [hA]
+  have h1 := abs_le.1 (hcos p.startAt)
+  have h2 := abs_le.1 (hcos (p.startAt + (t : K) * 2 * pi / (p.period : K)))
+  have h3 : |cos p.startAt - cos (p.startAt + (t : K) * 2 * pi / (p.period : K))| ≤ 2 :=
+    abs_le.2 ⟨by linarith [h1.1, h2.2], by linarith [h1.2, h2.1]⟩
+  have : (p.meanFreq : K) / (p.meanPer : K) * (t : K)
+      + (p.ampFreq : K) / (p.ampPer : K) * (p.period : K) / (2 * pi)
+        * (cos p.startAt - cos (p.startAt + (t : K) * 2 * pi / (p.period : K)))
+      - (p.meanFreq : K) / (p.meanPer : K) * (t : K)
+      = (p.ampFreq : K) / (p.ampPer : K) * (p.period : K) / (2 * pi)
+        * (cos p.startAt - cos (p.startAt + (t : K) * 2 * pi / (p.period : K))) := by ring
+  rw [this, abs_mul]
+  calc |(p.ampFreq : K) / (p.ampPer : K) * (p.period : K) / (2 * pi)|
+        * |cos p.startAt - cos (p.startAt + (t : K) * 2 * pi / (p.period : K))|
+      ≤ |(p.ampFreq : K) / (p.ampPer : K) * (p.period : K) / (2 * pi)| * 2 :=
+        mul_le_mul_of_nonneg_left h3 (abs_nonneg _)
+    _ = 2 * |(p.ampFreq : K) / (p.ampPer : K) * (p.period : K) / (2 * pi)| := by ring
+
+/-- … and `1·|ampHits|` is NOT a bound (so "at least `Mean·t − |ampHits|` hits are due" is no valid
+shortcut for the catch-up test): with a cosine that takes the values −1 at the start phase and +1
+half a period later the schedule is `Mean·t − 2·ampHits`. -/
+theorem sine_phase_bound_is_tight :
+    let cs : ℚ → ℚ := fun x => if x = 0 then -1 else 1
+    let o : FloatOps ℚ := exactOps (fun _ => 0) cs 1
+    let p : SineP ℚ := { period := 2, meanFreq := 3, meanPer := 1, ampFreq := 2, ampPer := 1, startAt := 0 }
+    (∀ x : ℚ, |cs x| ≤ 1) ∧ sineInvalid o p = false ∧
+    sineHits o p 1 < 3 * 1 - |sineAmpHits o p| ∧ sineHits o p 1 = 3 * 1 - 2 * |sineAmpHits o p| := by
+  refine ⟨?_, by decide +kernel, by decide +kernel, by decide +kernel⟩
+  intro x
+  by_cases h : x = 0 <;> simp [h]
+
+/-- The convergence test uses the ABSOLUTE error: every guess the repaired sine pacer accepts —
+from inside the fixed-point loop or from inside the bisection — satisfies
+`|H(t+w) − (hits+1)| < 1e-3` over exact arithmetic, on both sides (a one-sided test would accept
+guesses arbitrarily far beyond the deadline). -/
+theorem sine_accepted_guess_exact (p : SineP K) (H : Int → K)
+    (hHdef : ∀ t : Int, sineHits (exactOps sin cos pi) p t = H t)
+    (t : Int) (n : Nat) (w : Int) (e : SineExit) (hn : (n : Int) + 1 < (two64 : Int))
+    (h : sinePaceX (exactOps sin cos pi) p t n = (.wait w, e))
+    (he : e = .converged ∨ e = .bisected) :
+    |H (wrapS64 (t + w)) - ((n : K) + 1)| < 1 / 1000 := by
+  have hwrap : wrapU64 ((n : Int) + 1) = (n : Int) + 1 :=
+    wrapU64_id (by unfold inU64; constructor <;> omega)
+  have hcomp : (exactOps sin cos pi).lt ((exactOps sin cos pi).abs
+      (sineErr (exactOps sin cos pi) p t n w)) (exactOps sin cos pi).em3 = true := by
+    rcases he with he | he
+    · rw [he] at h; exact sine_converged_exit _ p t n w h
+    · exact (sine_bisect_exit _ p t n w e h).1 he
+  unfold sineErr at hcomp
+  rw [hHdef, hwrap] at hcomp
+  have : |(((n : Int) + 1 : Int) : K) - H (wrapS64 (t + w))| < 1 / 1000 := by
+    simpa [exactOps] using hcomp
+  rw [abs_sub_comm] at this
+  push_cast at this
+  exact this
+
+example : sinePaceX (exactOps (fun _ => (0 : ℚ)) (fun _ => 0) 1)
+    { period := 1000000000, meanFreq := 100, meanPer := 1000000000, ampFreq := 50, ampPer := 60000000000,
+      startAt := 0 } 0 0 = (.wait 10000000, .converged) := by
+  decide +kernel
+
 /-! Non-vacuity of the exact-arithmetic theorems (ℚ): the hypotheses of `linear_upper_nonneg_slope`
 hold for 100 hits/s rising by 10/s² over one hour (third conjunct: a start rate far above two hits per
 `MaxInt64` ns, no longer needed since 4a0988c), and those of `sine_upper_exact` for a straight schedule. -/
@@ -1700,5 +2082,66 @@ example : sinePaceX (exactOps (fun _ => (0 : ℚ)) (fun _ => 0) 0)
   decide +kernel
 
 end exact
+
+/-! ### "The declared schedule is the integral of the instantaneous rate" for the sine pacer (ℝ) -/
+
+/-- The real-time extension of the closed form of `sineHits`. -/
+noncomputable def sineScheduleReal (p : SineP ℝ) (pi : ℝ) (τ : ℝ) : ℝ :=
+  (p.meanFreq : ℝ) / (p.meanPer : ℝ) * τ
+    + (p.ampFreq : ℝ) / (p.ampPer : ℝ) * (p.period : ℝ) / (2 * pi)
+      * (Real.cos p.startAt - Real.cos (p.startAt + τ * 2 * pi / (p.period : ℝ)))
+
+/-- Over the reals, with the real `sin`/`cos` (and any non-zero constant for `π`, in particular
+`math.Pi`): the schedule `SinePacer.hits` computes is, at every instant of a valid configuration,
+a function whose DERIVATIVE is the rate `SinePacer.Rate` computes (in hits per nanosecond) — so the
+schedule is the integral of the instantaneous rate, for ARBITRARY pairs of units of `Mean` and
+`Amp`.  (This is where `ampHits` must be `Amp.hitsPerNs·Period/2π` with Amp's own unit.) -/
+theorem sine_schedule_is_rate_integral (p : SineP ℝ) (pi : ℝ) (hpi : pi ≠ 0) (t : Int) (ht : 0 < t)
+    (hv : sineInvalid (exactOps Real.sin Real.cos pi) p = false) :
+    sineHits (exactOps Real.sin Real.cos pi) p t = sineScheduleReal p pi (t : ℝ) ∧
+    HasDerivAt (sineScheduleReal p pi)
+      (sineRate (exactOps Real.sin Real.cos pi) p t / 1000000000) (t : ℝ) := by
+  have hP : (p.period : ℝ) ≠ 0 := by
+    have : ¬ p.period ≤ 0 := by
+      intro hle
+      have : sineInvalid (exactOps Real.sin Real.cos pi) p = true := by
+        unfold sineInvalid; simp [hle]
+      rw [hv] at this; exact absurd this (by decide)
+    have : (0 : ℝ) < (p.period : ℝ) := by exact_mod_cast (by omega : 0 < p.period)
+    exact ne_of_gt this
+  obtain ⟨h1, h2⟩ := sine_closed_forms Real.sin Real.cos pi p t ht hv
+  refine ⟨by rw [h1]; rfl, ?_⟩
+  rw [h2]
+  obtain ⟨M, hM⟩ : ∃ M : ℝ, M = (p.meanFreq : ℝ) / (p.meanPer : ℝ) := ⟨_, rfl⟩
+  obtain ⟨A, hA⟩ : ∃ A : ℝ, A = (p.ampFreq : ℝ) / (p.ampPer : ℝ) := ⟨_, rfl⟩
+  obtain ⟨P, hPd⟩ : ∃ P : ℝ, P = (p.period : ℝ) := ⟨_, rfl⟩
+  obtain ⟨O, hO⟩ : ∃ O : ℝ, O = p.startAt := ⟨_, rfl⟩
+  obtain ⟨τ, hτ⟩ : ∃ τ : ℝ, τ = (t : ℝ) := ⟨_, rfl⟩
+  have hfun : sineScheduleReal p pi
+      = fun x : ℝ => M * x + A * P / (2 * pi) * (Real.cos O - Real.cos (O + x * 2 * pi / P)) := by
+    funext x; unfold sineScheduleReal; rw [hM, hA, hPd, hO]
+  rw [hfun, ← hM, ← hA, ← hPd, ← hO, ← hτ]
+  rw [← hPd] at hP
+  have hd1 : HasDerivAt (fun x : ℝ => O + x * 2 * pi / P) (2 * pi / P) τ := by
+    have h := ((hasDerivAt_id τ).mul_const (2 * pi / P)).const_add O
+    have e1 : (fun x : ℝ => O + x * 2 * pi / P) = fun x => O + id x * (2 * pi / P) := by
+      funext x; simp only [id]; ring
+    rw [e1]; simpa using h
+  have hd2 := (hd1.cos).const_sub (Real.cos O)
+  have hd3 := ((hasDerivAt_id τ).const_mul M).add (hd2.const_mul (A * P / (2 * pi)))
+  have e2 : (M + A * Real.sin (O + τ * 2 * pi / P)) * 1000000000 / 1000000000
+      = M * 1 + A * P / (2 * pi) * -(-Real.sin (O + τ * 2 * pi / P) * (2 * pi / P)) := by
+    field_simp
+  rw [e2]
+  exact hd3
+
+
+
+/-- Non-vacuity: a configuration over ℝ with DIFFERENT units for mean (3 per 1ns) and amplitude
+(1 per 2ns) is valid, so `sine_schedule_is_rate_integral` applies to it. -/
+example : sineInvalid (exactOps Real.sin Real.cos 3)
+    { period := 1000, meanFreq := 3, meanPer := 1, ampFreq := 1, ampPer := 2, startAt := 0 } = false := by
+  simp [sineInvalid, exactOps, hitsPerNs]
+  norm_num
 
 end Vegeta.Props.C01
